@@ -304,7 +304,34 @@ func ruleConfiguredLimitStored(c *Ctx) {
 	c.Floor(rule, "stores of max/guaranteed in setResources", n, 4)
 }
 
-func init() { registerExtra("C18", ruleMulValBlindSpot) }
+func init() {
+	registerExtra("C18", ruleMulValBlindSpot)
+	registerExtra("C12", func(c *Ctx) {
+		c.Rule("C12.e", "the forced node add used by recovery (Node.addAllocationInternal) keeps available = total - allocated - occupied exactly like the checked add: every ledger mutation is followed by the mirrored update of available with the same operand (no clamping)")
+		n := checkAvailableCoherence(c, "C12.e", "objects.Node.addAllocationInternal")
+		c.Floor("C12.e", "ledger mutations in Node.addAllocationInternal", n, 2)
+	})
+	registerExtra("C17", func(c *Ctx) {
+		c.Rule("C17.f", "the active rule list is the configured one: the placement rules are rebuilt from the configuration on every reload before the partition is updated (an empty list installs the implicit provided rule)")
+		p := c.p
+		root := c.MustFunc("C17.f", "scheduler.PartitionContext.updatePartitionDetails")
+		if root == nil {
+			return
+		}
+		n := 0
+		for _, call := range p.callsIn(root, "locking.RWMutex.Lock", "github.com/sasha-s/go-deadlock.RWMutex.Lock") {
+			n++
+			st := p.StateAt(root, call)
+			upd := p.DoneCall(st, func(cl *ast.CallExpr) bool {
+				return len(cl.Args) == 1 && strings.HasSuffix(p.Src(cl.Args[0]), ".PlacementRules")
+			}, "placement.AppPlacementManager.UpdateRules")
+			c.Check("C17.f", "placement rules rebuilt on every reload", call, upd != nil, "the partition update proceeds without UpdateRules(conf.PlacementRules) having run on every path: applications keep being placed by rules that are no longer configured")
+		}
+		c.Floor("C17.f", "partition lock acquisitions in updatePartitionDetails", n, 1)
+		c.mustContainCalls("C17.f", "placement.AppPlacementManager.UpdateRules", "placement.AppPlacementManager.initialise")
+		c.mustContainCalls("C17.f", "placement.AppPlacementManager.initialise", "placement.buildRules")
+	})
+}
 
 // ruleMulValBlindSpot: the divide-back wrap test of mulVal has exactly one blind spot,
 // MinInt64 / -1 == MinInt64; the special case must name the divisor as the -1 operand.
